@@ -9,6 +9,7 @@ import (
 	"runtime"
 	"runtime/debug"
 	"sort"
+	"strings"
 	"sync"
 	"sync/atomic"
 	"time"
@@ -171,6 +172,23 @@ func judgeFor(c *Cfg, prop, family string, sc *scen.Scenario) ([]scen.Outcome, [
 				continue
 			}
 			c.Rep.Violate(prop, prop+":"+f.Key, fmt.Sprintf("run %d: %s", i, f.Detail), ScenCase{family, sc})
+		}
+	}
+	if prop == "C04" {
+		// the error value a run returned is the caller's to keep: it still matches that run's callback error after
+		// LATER runs of the same objects have come and gone
+		for i := 0; i+1 < len(outs); i++ {
+			now := outs[i].MatchAgain()
+			lost := false
+			for _, id := range strings.Split(outs[i].ErrID, "+") { // (identity-less error values match more ids as runs go by: only a LOST match counts)
+				if id != "" && id != "ctx" && !strings.Contains("+"+now+"+", "+"+id+"+") {
+					lost = true
+				}
+			}
+			if lost {
+				c.Rep.Violate("C04", "C04:error-of-an-earlier-run-changed", fmt.Sprintf("the error run %d returned matched %q (errors.Is/As) when it was returned; after %d further run(s) of the same objects the very same error value matches %q", i, outs[i].ErrID, len(outs)-1-i, now), ScenCase{family, sc})
+				break
+			}
 		}
 	}
 	return outs, mrs
